@@ -31,7 +31,9 @@ import pandas as pd
 from .. import rng as R
 from .. import simpool as SP
 from ..canon import canon, digest, D
-from ..sim import OPS, HarnessError, Violation, op, amount
+from .. import donors as DN
+from ..sim import OPS, MARKET_BUILDERS, HarnessError, Violation, op, amount
+from ..ref import obsstate as OB
 from ..worlds import uni as U
 from .c08 import _grid, _round, _base, _quote, TOKEN_SETS, MIN_TICK, MAX_TICK
 
@@ -40,6 +42,7 @@ from demeter import BacktestManager, BacktestConfig, BacktestData, StrategyConfi
 from demeter.strategy.trigger import CustomizedTrigger
 from demeter.uniswap import UniLpMarket
 from demeter.uniswap.helper import get_price_from_data
+from demeter._typing import USD
 
 ID = "C19"
 ORACLE = "c19.isolation"
@@ -54,7 +57,12 @@ COMPARED = (  # (what the property names, field of the finalize() record)
 
 
 # ===================================================================================================== generation
+DONOR_SHARE = 0.45  # share of scenarios whose world + base program come from another market family's generator
+
+
 def generate(seed: int, tier: str = "quick") -> dict:
+    if R.sub(seed, "family").random() < DONOR_SHARE:
+        return _generate_donor(seed, tier)
     rw, rp, rs, rf = R.sub(seed, "world"), R.sub(seed, "program"), R.sub(seed, "sched"), R.sub(seed, "faults")
     interval = rw.choice(["1min"] * 6 + ["2min", "5min"])
     k = int(pd.Timedelta(interval) / pd.Timedelta("1min"))
@@ -102,6 +110,10 @@ def generate(seed: int, tier: str = "quick") -> dict:
         failing = rf.randrange(ns)
         b = rf.randint(-1, nb - 1)
         program.append({"s": failing, "bar": b, "phase": "initialize" if b == -1 else rf.choice(["before_bar", "on_bar", "after_bar"]), "m": None, "op": "c19.raise", "a": {}})
+    return _finish(seed, tier, world, strategies, program, ns, threads, noisy, failing, rs)
+
+
+def _finish(seed, tier, world, strategies, program, ns, threads, noisy, failing, rs, donor=None):
     program.sort(key=lambda o: (o["s"], o["bar"], PHASE_ORDER.index(o["phase"])))
     order = list(range(ns))
     if rs.random() < 0.6:
@@ -127,11 +139,69 @@ def generate(seed: int, tier: str = "quick") -> dict:
         faults.append({"kind": "noisy_neighbour"})
     if failing is not None:
         faults.append({"kind": "strategy_raises"})
+    if R.sub(seed, "cfgdata").random() < 0.3:
+        world["config_with_data"] = True  # the configuration's market objects already carry their frames
+        faults.append({"kind": "config_carries_data"})
     sc = {"property": ID, "seed": seed, "world": world, "strategies": strategies, "program": program, "sched": sched, "faults": faults}
+    if donor:
+        sc["donor"] = donor
+        faults.append({"kind": "family:" + donor})
     if real_pool:
         sc["real_pool"] = True
         faults.append({"kind": "real_pool_crosscheck"})
     return sc
+
+
+def _generate_donor(seed: int, tier: str) -> dict:
+    """World and base program borrowed from another family's generator (Aave incl. liquidations, Squeeth vault + pool with an
+    LP lent as collateral, Deribit alone / beside a minutely pool incl. expiries, GMX v1 / v2); every strategy runs a
+    seeded variation of the base program (sub-sample, bars shifted) over that ONE world."""
+    rw, rp, rs, rf = R.sub(seed, "dworld"), R.sub(seed, "dprogram"), R.sub(seed, "sched"), R.sub(seed, "dfaults")
+    name = DN.pick(rw)
+    base = DN.base_scenario(name, seed, tier)
+    world = base["world"]
+    nb = len(DN.bar_times(world))
+    ns = rs.choice([2, 2, 2, 3, 3, 4, 5])
+    threads = rs.choice([1, 1, 1, 2, 2, 2, 3, 3, 4, 5])
+    n_noisy = rf.choice([0, 0, 1, 1, 2])
+    noisy = set(rf.sample(range(ns), min(n_noisy, ns)))
+    names = []
+    for mw in world["markets"]:
+        if mw["kind"] == "squeeth" and isinstance(mw.get("pool"), dict):
+            names.append(mw["pool"]["name"])
+        names.append(mw["name"])
+    strategies, program = [], []
+    for s in range(ns):
+        strategies.append({"name": f"s{s}", "noisy": s in noisy})
+        if s == 0 or rp.random() < 0.2:
+            ops = [dict(o) for o in base["program"]]
+        else:
+            keep = rp.uniform(0.25, 0.9)
+            ops = [dict(o) for o in base["program"] if rp.random() < keep]
+        d = rp.randint(1, max(1, nb // 3)) if s > 0 and rp.random() < 0.4 else 0
+        for o in ops:
+            if o["phase"] not in PHASE_ORDER:
+                o["phase"] = "after_bar"
+            if d and o["bar"] >= 0:
+                o["bar"] = min(nb - 1, o["bar"] + d)
+            o["s"] = s
+        program += ops
+        if s in noisy:
+            for kind in rf.sample(["add_column_new", "open_hook"], rf.choice([1, 1, 2])):
+                m = rf.choice(names)
+                b = rf.randint(-1, nb - 1)
+                if kind == "add_column_new":
+                    program.append({"s": s, "bar": b, "phase": "initialize" if b == -1 else "on_bar", "m": m, "op": "c19.add_column",
+                                    "a": {"name": rf.choice(["sma", "my_signal"]), "mode": "generic", "win": rf.randint(2, 5), "by": rf.choice(["market", "key"])}})
+                else:
+                    program.append({"s": s, "bar": b, "phase": "initialize" if b == -1 else "on_bar", "m": m, "op": "c19.set_open_hook",
+                                    "a": {"x": rf.choice(["0.01", "3"]), "generic": True}})
+    failing = None
+    if rf.random() < 0.15:
+        failing = rf.randrange(ns)
+        b = rf.randint(-1, nb - 1)
+        program.append({"s": failing, "bar": b, "phase": "initialize" if b == -1 else rf.choice(["before_bar", "on_bar", "after_bar"]), "m": None, "op": "c19.raise", "a": {}})
+    return _finish(seed, tier, world, strategies, program, ns, threads, noisy, failing, rs, donor=name)
 
 
 def _gen_program(rp, s, markets, nb, close_idx, lazy=False):
@@ -202,13 +272,22 @@ def _gen_noise(rf, s, markets, nb, close_idx):
 
 
 # ===================================================================================================== world
+class _NullBroker:
+    """build_squeeth registers its embedded pool with the broker; here nothing is registered (the manager does that)."""
+
+    def add_market(self, market):
+        pass
+
+
 class _Builder:
-    """What dsim.worlds.uni.build_uni needs from a Sim."""
+    """What the market builders of dsim.worlds.* need from a Sim."""
 
     def __init__(self, world):
         self.world = world
         self.tokens = {}
         self.mdata = {}
+        self.markets = {}
+        self.broker = _NullBroker()
         self.index = pd.date_range(start=pd.Timestamp(world["start"]), periods=int(world["n"]), freq="1min")
 
     def token(self, name):
@@ -221,44 +300,60 @@ class _Builder:
         return self.tokens[name]
 
 
+def market_kinds(world):
+    return OB.kinds_of(types.SimpleNamespace(world=world))
+
+
 def prepare_frames(world):
-    """Market-data frames in the loader's output format (raw frame -> real fillna/_add_statistic_column). Built once
-    per scenario in the harness process (pure functions of the world); every forked session sees its own copy-on-write
-    image of them, so nothing a session does to a frame can reach another session."""
+    """Market objects and market-data frames in the loaders' output format (dsim.worlds builders: raw frame -> the repo's
+    own post-processing), the price frame and my per-market metadata. Built once per scenario in the harness process
+    (pure functions of the world); every forked session works on its own copy-on-write image, so nothing a session does
+    to an object or a frame can reach another session."""
     b = _Builder(world)
-    out = []
     for mw in world["markets"]:
-        if mw["kind"] != "uni":
-            raise HarnessError("C19 worlds are uniswap-only")
-        built = U.build_uni(b, mw)
-        out.append((built.market_info, built.pool_info, built.data))
-    return out
+        builder = MARKET_BUILDERS.get(mw["kind"])
+        if builder is None:
+            raise HarnessError(f"no builder for market kind {mw['kind']}")
+        market = builder(b, mw)
+        b.markets[mw["name"]] = market
+    markets = list(b.markets.values())  # broker order: an embedded pool before its squeeth market
+    data = {m.market_info: m.data for m in markets}
+    if world.get("prices") is not None:
+        cols = {k.upper(): [D(x) for x in v] for k, v in world["prices"].items()}
+        pidx = b.index if "price_index" not in world else pd.DatetimeIndex([pd.Timestamp(t) for t in world["price_index"]])
+        q = world.get("quote", "USD")
+        prices = (pd.DataFrame(cols, index=pidx), USD if q == "USD" else b.token(q))
+    else:
+        first = markets[0]
+        prices = get_price_from_data(data[first.market_info], first.pool_info)
+    if not world.get("config_with_data"):
+        for m in markets:  # as in docs/source/concurrent.md: the configuration's markets carry no data, BacktestData does
+            m._data = None
+    # sorted: the wallet's column order must not depend on the key order of a JSON object (replay files are sorted)
+    assets = {b.token(k): D(v) for k, v in sorted(world.get("assets", {}).items())}
+    return {"markets": markets, "data": data, "prices": prices, "assets": assets, "mdata": b.mdata, "tokens": b.tokens}
 
 
 def build_world(world, frames=None):
-    """ONE StrategyConfig (fresh data-less market objects, as in docs/source/concurrent.md) + ONE BacktestData."""
-    frames = frames if frames is not None else prepare_frames(world)
-    b = _Builder(world)
-    markets = [UniLpMarket(mi, pool) for mi, pool, _ in frames]
-    data = {mi: df for mi, _, df in frames}
-    first = markets[0]
-    prices = get_price_from_data(data[first.market_info], first.pool_info)
-    # sorted: the wallet's column order must not depend on the key order of a JSON object (replay files are sorted)
-    assets = {b.token(k): D(v) for k, v in sorted(world.get("assets", {}).items())}
-    return StrategyConfig(assets=assets, markets=markets), BacktestData(data, prices)
+    """ONE StrategyConfig (market objects shared by reference by all strategies) + ONE BacktestData."""
+    fr = frames if frames is not None else prepare_frames(world)
+    return StrategyConfig(assets=fr["assets"], markets=fr["markets"]), BacktestData(fr["data"], fr["prices"])
 
 
 # ===================================================================================================== the strategy
 class _Facade:
-    """The slice of dsim.sim.Sim that the registered operations use (token/broker/markets/actuator)."""
+    """The slice of dsim.sim.Sim that the registered operations use (token/broker/markets/actuator/mdata/...)."""
 
     def __init__(self, strategy):
         self.strategy = strategy
-        self.world = {"tokens": strategy.token_decl}
-        self.tokens = {}
+        self.world = strategy.world
+        self.tokens = dict(strategy.tokens0)
+        self.mdata = strategy.mdata
+        self.index = pd.date_range(start=pd.Timestamp(self.world["start"]), periods=int(self.world["n"]), freq="1min")
         self.broker = strategy.broker
         self.actuator = strategy.actuator
         self.markets = {mi.name: m for mi, m in strategy.markets.items()}
+        self.kinds = market_kinds(self.world)
         self.bar = -1
         self.snapshot = None
         self.counters = {}
@@ -268,15 +363,34 @@ class _Facade:
     def count(self, key, n=1):
         self.counters[key] = self.counters.get(key, 0) + n
 
+    def positions(self):
+        """final / initial positions of every market through the public accessors (dsim.ref.obsstate readers)"""
+        return {n: (canon(m.positions) if self.kinds[n] == "uni" else canon(OB.READERS[self.kinds[n]](m))) for n, m in self.markets.items()}
+
+    def held(self):
+        out = {}
+        for n, m in self.markets.items():
+            k = self.kinds[n]
+            if k == "uni":
+                out[n] = len(m.positions)
+            else:
+                st = OB.READERS[k](m)
+                out[n] = {"aave": lambda: len(st["supplies"]) + len(st["borrows"]), "squeeth": lambda: len(st["vaults"]),
+                          "deribit": lambda: len(st["positions"]) + (1 if st["cash"] != "D:0" else 0),
+                          "gmx1": lambda: int(st["glp_amount"] != "D:0"), "gmx2": lambda: int(st["amount"] not in ("F:0.0", "D:0"))}[k]()
+        return out
+
 
 class ScriptStrategy(Strategy):
     """Executes its little program inside the real bar loop and, in finalize(), writes what it saw to self.outdir."""
 
-    def __init__(self, name, program, token_decl, outdir):
+    def __init__(self, name, program, world, mdata, tokens0, outdir):
         super().__init__()
         self.name = name
         self.program = program
-        self.token_decl = token_decl
+        self.world = world
+        self.mdata = mdata
+        self.tokens0 = tokens0
         self.outdir = outdir
         self.fs = None
         self.ops_log = []
@@ -287,7 +401,7 @@ class ScriptStrategy(Strategy):
     def initialize(self):
         self.fs = _Facade(self)
         self.entry = {
-            "positions": {n: len(m.positions) for n, m in self.fs.markets.items()},
+            "positions": self.fs.held(),
             "open_hook": {n: m.open is not None for n, m in self.fs.markets.items()},
             "data": {n: digest(m.data) for n, m in self.fs.markets.items()},
             "columns": {n: [str(c) for c in m.data.columns] for n, m in self.fs.markets.items()},
@@ -334,14 +448,19 @@ class ScriptStrategy(Strategy):
                         out = {"i": i, "op": o["op"], "status": "rejected", "exc": type(e).__name__, "msg": str(getattr(e, "message", e))[:160]}
             self.ops_log.append(out)
 
-    def open_hook(self, market_name, x):
-        """Installed as market.open by the noisy neighbour: a small purchase at the top of every bar."""
+    def open_hook(self, market_name, x, generic=False):
+        """Installed as market.open by the noisy neighbour: a small purchase at the top of every bar (uniswap worlds), or a
+        gift of x units of the first wallet token to whoever owns the market then (other families)."""
 
         def hook(snapshot):
             self.hook_calls += 1
             try:
                 m = self.fs.markets[market_name]
-                m.buy(m.broker.get_token_balance(m.quote_token) * x / max(m.market_status.data.price, Decimal("1e-30")))
+                if generic:
+                    tok = sorted(m.broker.assets.keys(), key=lambda t: t.name)[0]
+                    m.broker.add_to_balance(tok, x)
+                else:
+                    m.buy(m.broker.get_token_balance(m.quote_token) * x / max(m.market_status.data.price, Decimal("1e-30")))
             except Exception:
                 pass
 
@@ -356,7 +475,8 @@ class ScriptStrategy(Strategy):
             "account_df": canon(self.account_status_df),
             "account_rows": [canon(r) for r in self.account_status],
             "actions": [canon(a) for a in self.actions],
-            "positions": {n: canon(m.positions) for n, m in self.fs.markets.items()},
+            "positions": self.fs.positions(),
+            "held": self.fs.held(),
             "wallet": {t.name: canon(a.balance) for t, a in self.broker.assets.items()},
             "ops": self.ops_log,
             "hook_calls": self.hook_calls,
@@ -375,7 +495,10 @@ def _add_column(sim, m, a):
 
     def call():
         df = m.data
-        if mode == "new":
+        if mode == "generic":
+            win = int(a.get("win", 3))
+            series = pd.Series([float(i % win) for i in range(len(df))], index=df.index)
+        elif mode == "new":
             series = df["closeTick"].rolling(int(a.get("win", 3)), min_periods=1).mean()
         else:
             scale = D(a["scale"])
@@ -392,20 +515,19 @@ def _set_open_hook(sim, m, a):
     x = D(a.get("x", "0.01"))
 
     def call():
-        m.open = stg.open_hook(m.market_info.name, x)
+        m.open = stg.open_hook(m.market_info.name, x, bool(a.get("generic")))
         return True
 
     return call
 
 
 # ===================================================================================================== one manager run
-def _members(scenario, idxs, outdir):
-    decl = scenario["world"]["tokens"]
+def _members(scenario, idxs, outdir, frames):
     out = []
     for i in idxs:
         spec = scenario["strategies"][i]
         prog = [{k: v for k, v in o.items() if k != "s"} for o in scenario.get("program", []) if o.get("s") == i]
-        out.append(ScriptStrategy(spec["name"], prog, decl, outdir))
+        out.append(ScriptStrategy(spec["name"], prog, scenario["world"], frames["mdata"], frames["tokens"], outdir))
     return out
 
 
@@ -414,8 +536,11 @@ def _session(scenario, idxs, threads, outdir, real_pool=False, frames=None):
     os.makedirs(outdir, exist_ok=True)
     os.chdir(outdir)  # Actuator's RuntimeError path calls save_result('./')
     world = scenario["world"]
+    if scenario.get("donor"):
+        DN.prepare(scenario["donor"])
+    frames = frames if frames is not None else prepare_frames(world)
     config, data = build_world(world, frames)
-    strategies = _members(scenario, idxs, outdir)
+    strategies = _members(scenario, idxs, outdir, frames)
     info = {"exception": None, "pid": os.getpid()}
     seam = SP.Seam(BT, scenario.get("sched", {}))
     old_out, old_err = sys.stdout, sys.stderr
@@ -578,6 +703,8 @@ def execute(scenario):
     order = [i for i in sched.get("order", list(range(ns))) if 0 <= i < ns]
     order += [i for i in range(ns) if i not in order]
     k = int(pd.Timedelta(_iv(scenario["world"].get("interval", "1min"))) / pd.Timedelta("1min"))
+    if scenario.get("donor"):
+        DN.prepare(scenario["donor"])
     frames = prepare_frames(scenario["world"])
     root = tempfile.mkdtemp(prefix="dsim-c19-")
     try:
@@ -633,6 +760,9 @@ def _judge(res, scenario, order, threads, alone, alone_info, info, got, k):
             res.count("probe:inprocess_ge2_strategies")
     if order != sorted(order):
         res.count("fault:order_perm")
+    res.count("probe:world_family:" + (scenario.get("donor") or "uni"))
+    if scenario["world"].get("config_with_data"):
+        res.count("fault:config_carries_data")
     per_worker = {}
     for no, (w, kth) in executed.items():
         per_worker[w] = max(per_worker.get(w, 0), kth + 1)
@@ -676,7 +806,7 @@ def _judge(res, scenario, order, threads, alone, alone_info, info, got, k):
             before = [order[j2] for j2 in range(ns) if j2 in executed and executed[j2][0] == w and executed[j2][1] < kth]
         else:
             before = order[:j]
-        pred_left = any(alone.get(p) and any(v for v in alone[p]["positions"].values()) for p in before)
+        pred_left = any(alone.get(p) and any(v for v in alone[p]["held"].values()) for p in before)
         pred_noisy = any(strategies[p].get("noisy") for p in before)
         if pred_left:
             left_open = True
